@@ -40,6 +40,7 @@ import (
 	"github.com/tikv/client-go/v2/oracle"
 	"github.com/tikv/client-go/v2/tikv"
 	"github.com/tikv/client-go/v2/tikvrpc"
+	"github.com/tikv/client-go/v2/util"
 	"github.com/tikv/client-go/v2/verifh/vrep"
 
 	"verif/e2e/uni"
@@ -53,6 +54,9 @@ type step struct {
 	Val   string   `json:"val,omitempty"`
 	Keys  []string `json:"keys,omitempty"`
 	Force bool     `json:"force,omitempty"`
+	// Ctx: the context of a call that takes one (get, bget): 0 = context.Background(), 1 = cancelled right after
+	// the call returned, 2 = carries values and a far deadline, cancelled right after the call returned
+	Ctx int `json:"ctx,omitempty"`
 }
 
 func (s step) String() string {
@@ -118,6 +122,9 @@ type spec struct {
 	// pipelinedCommitFail (the commit fails after the commit ts has been fetched); not-leader / server-busy /
 	// drop-req hit the first Commit request
 	CommitFault string `json:"commit_fault,omitempty"`
+	// CommitCtx: the context of Commit; as step.Ctx, and 3 = cancelled while Commit runs (when its first Commit
+	// request is about to be sent): the answer may then be an error, judged like a commit-phase fault
+	CommitCtx int `json:"commit_ctx"`
 	// BGFaults: what happens to the n-th BufferBatchGet RPC of the transaction (reads of flushed keys); a split
 	// is placed between two of the requested keys, so that the batch has to be re-grouped by region
 	BGFaults []fault `json:"buffer_batch_get_rpc_faults"`
@@ -299,10 +306,25 @@ func gen(rng *rand.Rand, id, prefixNo int) *spec {
 
 // genCommitFault gives a quarter of the committing transactions a failure in the commit phase.
 func genCommitFault(rng *rand.Rand, s *spec) {
+	// Cancelling a context after the call it was passed to has returned is not a fault.
+	for i := range s.Steps {
+		if s.Steps[i].Op == "get" || s.Steps[i].Op == "bget" {
+			s.Steps[i].Ctx = rng.Intn(3)
+		}
+	}
+	s.CommitCtx = rng.Intn(3)
+	if rng.Intn(12) == 0 {
+		s.CommitCtx = 3
+	}
 	if s.End != "commit" || s.LoseFrom >= 0 || s.ConflictKey != "" || rng.Intn(4) != 0 {
 		return
 	}
-	s.CommitFault = []string{"primary-rolled-back", "primary-rolled-back", "primary-rolled-back", "failpoint", "failpoint", "not-leader", "server-busy", "drop-req"}[rng.Intn(8)]
+	s.CommitFault = []string{"primary-rolled-back", "primary-rolled-back", "primary-rolled-back", "failpoint", "failpoint", "not-leader", "server-busy", "drop-req", "drop-resp-cancel"}[rng.Intn(9)]
+	if s.CommitFault == "drop-resp-cancel" {
+		// the Commit request is executed, its response is lost and the caller's context is cancelled at that
+		// moment (no retry): the outcome is undetermined for the client
+		s.CommitCtx = 3
+	}
 }
 
 // genBGFaults draws the faults of the first BufferBatchGet RPCs of a transaction.
@@ -449,6 +471,8 @@ type plan struct {
 	nResolve int
 	nBG      int
 	nCommit  int
+	cancelAtCommit  func()
+	cancelledDuring bool
 	commitRequestLost bool
 	held     []chan struct{}
 	release  bool // release mode: nothing is held
@@ -481,6 +505,19 @@ func (p *plan) decide(c *uni.Call) uni.Action {
 		p.nCommit++
 		if n != 0 {
 			return uni.Action{}
+		}
+		if p.s.CommitFault == "drop-resp-cancel" && p.cancelAtCommit != nil {
+			f := p.cancelAtCommit
+			p.cancelledDuring = true
+			p.commitRequestLost = true
+			p.counts["commit:response-lost-and-context-cancelled"]++
+			return uni.Action{Kind: uni.DropResp, After: f}
+		}
+		if p.cancelAtCommit != nil {
+			f := p.cancelAtCommit
+			p.cancelledDuring = true
+			p.counts["commit:context-cancelled-at-commit-rpc"]++
+			return uni.Action{Before: f}
 		}
 		switch p.s.CommitFault {
 		case "primary-rolled-back":
@@ -609,6 +646,25 @@ func (p *plan) decide(c *uni.Call) uni.Action {
 	return uni.Action{}
 }
 
+type ctxKey string
+
+var ctxKindNames = []string{"background", "cancelled-after-return", "values+deadline-cancelled-after-return", "cancelled-during-call"}
+
+// callCtx builds the context of one API call; done is to be called right after the call has returned.
+func callCtx(kind int, id int) (ctx context.Context, cancel func()) {
+	switch kind {
+	case 1, 3:
+		return context.WithCancel(context.Background())
+	case 2:
+		c := context.WithValue(context.Background(), ctxKey("verif-case"), id)
+		c = context.WithValue(c, util.SessionID, uint64(id+1))
+		c, cancel1 := context.WithTimeout(c, time.Hour)
+		c, cancel2 := context.WithCancel(c)
+		return c, func() { cancel2(); cancel1() }
+	}
+	return context.Background(), func() {}
+}
+
 // rollbackExpiredPrimary does what the resolver of another client does when it meets the primary lock after its
 // ttl: CheckTxnStatus with a current ts far behind lock ts + ttl, which rolls the primary back.  It goes through
 // the un-recorded truth store, so the RPC log of the owner stays the owner's.
@@ -726,6 +782,7 @@ type caseRec struct {
 	reads     map[string]int
 	heldReleasedByWait, heldReleasedByStep int
 	conflictCommitted bool
+	ctxKinds          map[string]int
 	lockLeftReported  bool
 	undetermined      bool
 	clientID          int
@@ -744,7 +801,7 @@ type viol struct {
 // runCase drives one pipelined transaction; violations of the read/error oracles are returned at once,
 // the wire and truth oracles run after the universe has drained.
 func runCase(u *uni.Universe, rt *router, c, c2 *uni.ClientStore, s *spec) (rec *caseRec, vs []viol) {
-	rec = &caseRec{s: s, latest: map[string]mval{}, reads: map[string]int{}}
+	rec = &caseRec{s: s, latest: map[string]mval{}, reads: map[string]int{}, ctxKinds: map[string]int{}}
 	ctx := context.Background()
 	addViol := func(step int, sig, format string, a ...any) {
 		vs = append(vs, viol{sig: sig, msg: fmt.Sprintf("case %d (%s) step %d: ", s.ID, s.Shape, step) + fmt.Sprintf(format, a...),
@@ -872,7 +929,10 @@ loop:
 			rec.shape = append(rec.shape, "del")
 		case "get":
 			want, present, tier := expectRead(st.Key)
-			got, err := txn.Get(ctx, []byte(st.Key))
+			cctx, done := callCtx(st.Ctx, s.ID)
+			got, err := txn.Get(cctx, []byte(st.Key))
+			done()
+			rec.ctxKinds["get:"+ctxKindNames[st.Ctx]]++
 			rec.reads["get:"+tier]++
 			rec.shape = append(rec.shape, "get:"+tier)
 			switch {
@@ -890,7 +950,10 @@ loop:
 			for _, k := range st.Keys {
 				ks = append(ks, []byte(k))
 			}
-			got, err := txn.BatchGet(ctx, ks)
+			cctx, done := callCtx(st.Ctx, s.ID)
+			got, err := txn.BatchGet(cctx, ks)
+			done()
+			rec.ctxKinds["bget:"+ctxKindNames[st.Ctx]]++
 			if err != nil {
 				addViol(i, "read:bget:error", "BatchGet(%q) failed: %T: %v", st.Keys, err, err)
 				continue
@@ -976,7 +1039,14 @@ loop:
 			p.counts["commit:failpoint-after-commit-ts"]++
 			p.mu.Unlock()
 		}
-		ok := blocking(func() { cerr = txn.Commit(ctx) })
+		cctx, done := callCtx(s.CommitCtx, s.ID)
+		if s.CommitCtx == 3 {
+			p.mu.Lock()
+			p.cancelAtCommit = done
+			p.mu.Unlock()
+		}
+		ok := blocking(func() { cerr = txn.Commit(cctx); done() })
+		rec.ctxKinds["commit:"+ctxKindNames[s.CommitCtx]]++
 		if s.CommitFault == "failpoint" {
 			_ = failpoint.Disable("tikvclient/pipelinedCommitFail")
 		}
@@ -986,7 +1056,7 @@ loop:
 		if cerr != nil && (errors.Is(cerr, tikverr.ErrResultUndetermined) || errors.Cause(cerr) == tikverr.ErrResultUndetermined) {
 			rec.undetermined = true
 			p.mu.Lock()
-			lost := p.commitRequestLost
+			lost := p.commitRequestLost || p.cancelledDuring
 			p.mu.Unlock()
 			if !lost {
 				addViol(len(s.Steps), "error:undetermined-without-lost-commit-request", "Commit returned %v although no request of the commit point was lost", cerr)
@@ -1052,6 +1122,7 @@ func fmtGen(m map[string]mval) string {
 type wireStats struct {
 	flushRPCs, applied, generations, retriedGenerations int
 	ownerResolves, ownerResolvesRollback                int
+	commitRPCs                                          int
 }
 
 // checkWire evaluates the wire oracle over the Flush RPCs of the transaction.
@@ -1182,6 +1253,21 @@ func checkWire(rec *caseRec, calls []uni.Call) (vs []viol, st wireStats) {
 			add("wire:generation-never-sent", "the %d-th non-empty flush %s was reported successful but no Flush request of it was sent", i+1, fmtGen(model[i]))
 		}
 	}
+	// A Commit request of the primary that got no answer (transport error, cancelled while in flight) leaves the
+	// outcome open: if it was the last word on the commit point, Commit must say "undetermined", not a plain error.
+	var lastCommit *uni.Call
+	for i := range calls {
+		c := &calls[i]
+		if c.Client == rec.clientID && c.StartTS == rec.startTS && c.Cmd == tikvrpc.CmdCommit {
+			lastCommit = c
+		}
+	}
+	if lastCommit != nil {
+		st.commitRPCs++
+		if lastCommit.Err != "" && rec.ended == "commit" && !rec.committed && !rec.undetermined {
+			add("error:plain-error-although-commit-request-unanswered", "the last Commit request of the primary (#%d, %s, delivered=%v) ended with transport error %q, so the outcome is unknown to the client; Commit() returned the plain error %q instead of ErrResultUndetermined", lastCommit.Seq, lastCommit.Action, lastCommit.Delivered, lastCommit.Err, rec.endErr)
+		}
+	}
 	// The owner resolves its flushed locks to the outcome decided on the primary: a ResolveLock request of the
 	// owner for its own start ts carries commit_version 0 unless a Commit request of the primary had succeeded
 	// before it was sent, and then exactly that commit ts.
@@ -1306,6 +1392,11 @@ func checkTruth(rec *caseRec, truth *uni.Truth, locks []uni.LockRec, calls []uni
 			}
 		}
 	}
+	if phase == 1 && rec.undetermined {
+		// the owner cannot know the outcome and must not clean up: the locks stay until their ttl has passed and
+		// somebody resolves them through the primary (phase 2)
+		left = nil
+	}
 	if len(left) > 0 && (phase == 1 || !rec.lockLeftReported) {
 		lockLeft = true
 		sort.Strings(left)
@@ -1377,7 +1468,33 @@ func checkTruth(rec *caseRec, truth *uni.Truth, locks []uni.LockRec, calls []uni
 
 // ---------------------------------------------------------------- test
 
-func runUniverse(t *testing.T, r *vrep.Report, rng *rand.Rand, uniNo, nCases int, firstID int) {
+// answerClause reports whether a violation belongs to the truthfulness of Commit's answer (property C03 applied
+// to the pipelined commit mode); those are also handed to the C03 report riding on this workload.
+func answerClause(sig string) bool {
+	for _, p := range []string{
+		"error:plain-error-although-commit-request-unanswered",
+		"error:undetermined-without-lost-commit-request",
+		"truth:primary-committed:after=failed-commit",
+		"truth:version-visible:after=failed-commit",
+		"observer:value-of-uncommitted-txn-visible:after=commit",
+		// nil => committed everywhere, with one commit ts
+		"truth:write-lost:", "truth:wrong-version", "truth:commit-without-primary-commit", "truth:commit-ts-differs-from-primary",
+		"truth:version-of-unwritten-key",
+	} {
+		if strings.HasPrefix(sig, p) {
+			return true
+		}
+	}
+	return false
+}
+
+func runUniverse(t *testing.T, r, ar *vrep.Report, rng *rand.Rand, uniNo, nCases int, firstID int) {
+	violate := func(sig, msg string, detail any) {
+		r.Violate("e2e:"+sig, msg, detail)
+		if answerClause(sig) {
+			ar.Violate("pipelined:"+sig, msg, detail)
+		}
+	}
 	u, err := uni.New(uni.Uni, 1)
 	if err != nil {
 		r.Inconc("universe: %v", err)
@@ -1403,7 +1520,7 @@ func runUniverse(t *testing.T, r *vrep.Report, rng *rand.Rand, uniNo, nCases int
 		s := gen(rng, firstID+i, prefixes[i])
 		rec, vs := runCase(u, rt, c, c2, s)
 		for _, v := range vs {
-			r.Violate("e2e:"+v.sig, v.msg, v.detail)
+			violate(v.sig, v.msg, v.detail)
 		}
 		if rec.aborted != "" {
 			r.Inconc("case %d: %s", s.ID, rec.aborted)
@@ -1474,7 +1591,7 @@ func runUniverse(t *testing.T, r *vrep.Report, rng *rand.Rand, uniNo, nCases int
 	for _, rec := range recs {
 		lv, _ := checkTruth(rec, truths[rec], locks, calls, 1)
 		for _, v := range lv {
-			r.Violate("e2e:"+v.sig, v.msg, v.detail)
+			violate(v.sig, v.msg, v.detail)
 		}
 	}
 	// Recovery: the clock passes every ttl, an observer reads every key (which resolves whatever lock is left)
@@ -1506,7 +1623,7 @@ func runUniverse(t *testing.T, r *vrep.Report, rng *rand.Rand, uniNo, nCases int
 			mine := fmt.Sprintf("v%d.", rec.s.ID)
 			for k, e := range got {
 				if strings.HasPrefix(string(e.Value), mine) {
-					r.Violate("e2e:observer:value-of-uncommitted-txn-visible:after="+rec.ended, fmt.Sprintf("case %d (%s): %s of the transaction ended with %q, but an observer reading after every ttl sees its value %q under %q", rec.s.ID, rec.s.Shape, rec.ended, rec.endErr, short(string(e.Value)), k),
+					violate("observer:value-of-uncommitted-txn-visible:after="+rec.ended, fmt.Sprintf("case %d (%s): %s of the transaction ended with %q, but an observer reading after every ttl sees its value %q under %q", rec.s.ID, rec.s.Shape, rec.ended, rec.endErr, short(string(e.Value)), k),
 						map[string]any{"spec": rec.s, "steps": rec.s.stepStrings(), "start_ts": rec.startTS, "end_error": rec.endErr, "observed": rec.shape})
 				}
 			}
@@ -1533,7 +1650,7 @@ func runUniverse(t *testing.T, r *vrep.Report, rng *rand.Rand, uniNo, nCases int
 		wv, ws := checkWire(rec, calls)
 		tv, _ := checkTruth(rec, truths[rec], locks, calls, 2)
 		for _, v := range append(wv, tv...) {
-			r.Violate("e2e:"+v.sig, v.msg, v.detail)
+			violate(v.sig, v.msg, v.detail)
 		}
 		r.Eval(1 + ws.generations + len(s.Keys))
 		r.Count("programs", 1)
@@ -1549,6 +1666,46 @@ func runUniverse(t *testing.T, r *vrep.Report, rng *rand.Rand, uniNo, nCases int
 					e = e[:80]
 				}
 				r.Count("commit_error:"+e, 1)
+			}
+		}
+		if rec.ended == "commit" && len(rec.latest) > 0 {
+			// the C03 monitor: one judged Commit answer
+			answer := "definite-error"
+			switch {
+			case rec.committed:
+				answer = "nil"
+			case rec.undetermined:
+				answer = "undetermined"
+			}
+			inTruth := false
+			for _, k := range s.Keys {
+				if kt := truths[rec].Keys[k]; kt != nil && kt.WriteOf(rec.startTS) != nil {
+					inTruth = true
+				}
+			}
+			outcome := map[bool]string{true: "committed", false: "not-committed"}[inTruth]
+			fk := s.CommitFault
+			switch {
+			case fk != "":
+			case s.LoseFrom >= 0:
+				fk = "flush-lost"
+			case rec.conflictCommitted:
+				fk = "write-conflict"
+			case rec.flushErr != "":
+				fk = "flush-error"
+			default:
+				fk = "none"
+			}
+			ar.Eval(1)
+			ar.Count("commits_judged", 1)
+			ar.Count("answer:"+answer, 1)
+			ar.Count("outcome:"+outcome, 1)
+			ar.Count("answer:"+answer+"/outcome:"+outcome, 1)
+			ar.Count("commit_fault:"+fk, 1)
+			ar.Count("commit_ctx:"+ctxKindNames[s.CommitCtx], 1)
+			ar.Distinct(fmt.Sprintf("%s|%s|%s|%s", fk, ctxKindNames[s.CommitCtx], answer, outcome))
+			if (fk != "none" || answer != "nil") && ar.SampleN() < 3 && s.ID%3 == 1 {
+				ar.Sample(map[string]any{"case": s.ID, "shape": s.Shape, "commit_fault": fk, "commit_ctx": ctxKindNames[s.CommitCtx], "answer": answer, "error": rec.endErr, "outcome_in_truth": outcome, "keys_written": len(rec.latest), "trace": rec.shape})
 			}
 		}
 		if rec.flushErr != "" {
@@ -1567,6 +1724,9 @@ func runUniverse(t *testing.T, r *vrep.Report, rng *rand.Rand, uniNo, nCases int
 		}
 		if s.LoseFrom >= 0 || s.ConflictKey != "" || rec.endErr != "" || rec.flushErr != "" {
 			t.Logf("case %d %s end=%s committed=%v endErr=%q flushErr=%q loseFrom=%d conflict=%q(%v) faults=%v trace=%v", s.ID, s.Shape, rec.ended, rec.committed, rec.endErr, rec.flushErr, s.LoseFrom, s.ConflictKey, rec.conflictCommitted, rec.faults, rec.shape)
+		}
+		for k, v := range rec.ctxKinds {
+			r.Count("ctx:"+k, v)
 		}
 		r.Count("region_splits_by_driver_after_flush", rec.splitsByDriver)
 		r.Count("owner_resolve_lock_rpcs", ws.ownerResolves)
@@ -1614,17 +1774,24 @@ func countCmd(calls []uni.Call, cmd tikvrpc.CmdType) int {
 }
 
 func TestVerifC16(t *testing.T) {
-	r := vrep.New("C16", "c16-e2e", "generated pipelined transactions (set/delete/get/batch-get/flush force|threshold/flush-wait, then Commit or Rollback; flush thresholds lowered through the pipelinedMemDB* failpoints; flush and resolve concurrency 1|2|8) on unistore, each on its own key prefix with its own region layout (random borders, largest written key first in its region, a single flushed key, committed old values under keys that are overwritten/deleted, flushed and waited for and then read by one BatchGet and by Get while the region is split between them - by the driver behind the client's region cache or exactly at the BufferBatchGet RPC) and a fault plan on its BufferBatchGet RPCs (split between two requested keys, NotLeader, ServerIsBusy, EpochNotMatch) and on its Flush RPCs (held in flight while the program goes on, NotLeader, ServerIsBusy, region split at the RPC, lost request, lost response, every request lost from some point on, conflicting committed write; NotLeader/split on a ResolveLock RPC; commit-phase failures: primary lock rolled back by another client's resolver right before the Commit RPC, failpoint pipelinedCommitFail, NotLeader/ServerIsBusy/lost request on the Commit RPC); monitors: reads vs the driver's model by tier, wire (mutations per generation, completeness of successful flushes, increasing generations, one generation in flight), Commit fails after a reported flush error, MVCC truth after drain (no lock) and again after ttl expiry + observer reads (latest writes at the primary's commit ts / nothing; undetermined = all or nothing), owner's ResolveLock requests carry commit_version 0 unless its primary Commit succeeded; distinct = distinct (shape, end, outcome, operation/tier trace) of transactions that flushed at least once")
+	r := vrep.New("C16", "c16-e2e", "generated pipelined transactions (set/delete/get/batch-get/flush force|threshold/flush-wait, then Commit or Rollback; flush thresholds lowered through the pipelinedMemDB* failpoints; flush and resolve concurrency 1|2|8) on unistore, each on its own key prefix with its own region layout (random borders, largest written key first in its region, a single flushed key, committed old values under keys that are overwritten/deleted, flushed and waited for and then read by one BatchGet and by Get while the region is split between them - by the driver behind the client's region cache or exactly at the BufferBatchGet RPC) and a fault plan on its BufferBatchGet RPCs (split between two requested keys, NotLeader, ServerIsBusy, EpochNotMatch) and on its Flush RPCs (held in flight while the program goes on, NotLeader, ServerIsBusy, region split at the RPC, lost request, lost response, every request lost from some point on, conflicting committed write; NotLeader/split on a ResolveLock RPC; commit-phase failures: primary lock rolled back by another client's resolver right before the Commit RPC, failpoint pipelinedCommitFail, NotLeader/ServerIsBusy/lost request on the Commit RPC, lost response with the caller's context cancelled; every Get/BatchGet/Commit gets context.Background() | a context cancelled right after the call returned | a context with values and a far deadline cancelled after return, Commit also a context cancelled when its Commit request is sent); monitors: reads vs the driver's model by tier, wire (mutations per generation, completeness of successful flushes, increasing generations, one generation in flight), Commit fails after a reported flush error, MVCC truth after drain (no lock) and again after ttl expiry + observer reads (latest writes at the primary's commit ts / nothing; undetermined = all or nothing), owner's ResolveLock requests carry commit_version 0 unless its primary Commit succeeded; distinct = distinct (shape, end, outcome, operation/tier trace) of transactions that flushed at least once")
 	defer r.Finish(t)
+	ar := vrep.New("C03", "c03-on-c16", "truthfulness of Commit's answer for the pipelined commit mode, judged on the C16 e2e executions: every Commit of a generated pipelined transaction on unistore (flush faults, write conflicts; commit-phase faults: primary lock rolled back by another client's resolver right before the Commit RPC, failpoint pipelinedCommitFail after the commit ts was fetched, NotLeader/ServerIsBusy/lost request on the Commit RPC, lost response with the caller's context cancelled, context cancelled when the Commit request is sent; contexts cancelled after return) is compared, after drain, clock past every ttl and observer reads, with the MVCC truth: nil => every written key carries its latest write at the primary's single commit ts; definite error => no version of the transaction exists and no observer ever sees its values; undetermined only when a commit-point request was lost or cancelled in flight; a Commit request that stayed unanswered is never reported as a plain error; distinct = distinct (commit fault kind, context kind, answer class, outcome in the truth)")
+	defer ar.Finish(t)
 	_ = failpoint.Enable("tikvclient/fastBackoffBySkipSleep", "return")
 	defer failpoint.Disable("tikvclient/fastBackoffBySkipSleep")
 	rng := vrep.Rand("c16-e2e")
 	nUni := vrep.Pick(2, 8)
 	nCases := vrep.Pick(300, 600)
 	for i := 0; i < nUni; i++ {
-		runUniverse(t, r, rng, i, nCases, i*nCases)
+		runUniverse(t, r, ar, rng, i, nCases, i*nCases)
 		r.Flush()
+		ar.Flush()
 	}
+	ar.Floor("commits_judged", 300)
+	ar.Floor("answer:undetermined", 10)
+	ar.Floor("answer:definite-error", 50)
+	ar.Floor("answer:nil", 150)
 	r.Floor("programs", 400)
 	r.Floor("commit_ok", 150)
 	r.Floor("end:rollback", 80)
@@ -1632,6 +1799,11 @@ func TestVerifC16(t *testing.T) {
 	r.Floor("programs:max-on-border", 60)
 	r.Floor("programs:read-flushed", 60)
 	r.Floor("fault:commit:primary-rolled-back-by-resolver", 10)
+	r.Floor("ctx:commit:cancelled-after-return", 50)
+	r.Floor("ctx:commit:values+deadline-cancelled-after-return", 50)
+	r.Floor("ctx:get:cancelled-after-return", 200)
+	r.Floor("ctx:bget:values+deadline-cancelled-after-return", 100)
+	r.Floor("fault:commit:context-cancelled-at-commit-rpc", 5)
 	r.Floor("fault:commit:failpoint-after-commit-ts", 5)
 	r.Floor("owner_resolve_lock_rpcs_rollback", 100)
 	r.Floor("fault:bufget:split-between-requested-keys", 15)
